@@ -3,6 +3,7 @@ from checks import kern, law_audits
 from checks import full_step
 from checks import pure_fns
 from checks import api_cov
+from checks import scale_inv
 LEAN_TARGETS = ["QmcProps.C01Capstone", "QmcProofs.KernelInvarianceCut", "QmcProps.Law", "drv_step", "QmcProofs.SamplerStep", "QmcProofs.SamplerCluster", "QmcProps.C01", "drv_c01", "QmcProps.C08", "drv_c08", "QmcProps.C09", "drv_c09", "QmcProofs.KernelInvariance", "QmcProps.C17", "drv_c17"]
 BINS = ["fullstep", "c01", "c08", "c09", "c17", "kern"]
 
@@ -105,4 +106,5 @@ def main(ck):
     full_step.run(ck, modes=["ising"], audit=True)   # whole-timestep exact trajectories + preservation theorems
     law_audits.run(ck)   # idealised law of the executable model = the Markov kernel of the invariance theorems
     api_cov.run(ck, "c01")   # otherwise unexercised public API, model-free oracles of this property
+    scale_inv.run(ck, "c01")   # power-of-two unit change: identical trajectory, energies exactly scaled (model-free twin oracle)
     return ck.finish(RULE)
